@@ -111,6 +111,7 @@ def build_api(r, reserved_words, use_reserved=True, hostile=False):
 
     nmeth = r.randint(4, 7)
     names = ["Alpha", "Beta", "Gamma", "Delta", "Epsilon", "Zeta", "Eta"][:nmeth]
+    stream_pos = r.randrange(nmeth)    # at least one server-streaming candidate per API
     bare = r.randrange(nmeth)          # at least one bound method per API whose request declares no REQUIRED field
     for pos, nm in enumerate(names):
         m, info = request_message(nm, allow_required=(pos != bare and r.random() < 0.85))
@@ -119,7 +120,9 @@ def build_api(r, reserved_words, use_reserved=True, hostile=False):
         for j in range(0 if k < 0.5 else 1 if k < 0.8 else 2):
             more.append((r.choice(VERBS), uri(info, "v%d" % (j + 2)), body(info)))
         out = rep.fqn if r.random() < 0.85 else ".google.protobuf.Empty"
-        svc.rpc(nm, m.fqn, out, http=(r.choice(VERBS), uri(info)), body=body(info), more_http=more)
+        # some of the bound methods are server-streaming (returns (stream Reply)): same request side, JSON array reply
+        streaming = out == rep.fqn and (pos == stream_pos or r.random() < 0.15)
+        svc.rpc(nm, m.fqn, out, ss=streaming, http=(r.choice(VERBS), uri(info)), body=body(info), more_http=more)
     m, _ = request_message("Bare")
     svc.rpc("Bare", m.fqn, rep.fqn)                                   # no google.api.http at all
     if r.random() < 0.5:
